@@ -1,7 +1,7 @@
 (* Correspondence for the LapTimer codec (C01, C13). *)
 From Coq Require Import String Ascii List ZArith NArith Bool.
 From TT Require Import Base.Outcome Base.Str Base.F64 Base.Verdict Xml.Print Xml.Lex
-     Laptimer.Leaves Laptimer.Value Laptimer.Codec Laptimer.Schema Proofs.Doc_lt.
+     Laptimer.Leaves Laptimer.Value Laptimer.Codec Laptimer.Schema Proofs.Doc_lt Proofs.Struct_proofs.
 Import ListNotations.
 Local Open Scope Z_scope.
 
@@ -136,3 +136,6 @@ Definition check_c13 (c : case) : verdict :=
     let same := neq (enc (c_val c)) (c_bytes c) in
     if wellformed c && c_gz_ok c && schema_ok c then (if same then VA else VS) else VV
   end.
+
+(* is the database inside the domain of C01_reencode_identical? *)
+Definition hyp_c01 (c : case) : bool := val_ok_b (c_val c).
